@@ -73,9 +73,21 @@ def steady_state_transport_solver(
         2D or 3D field of kinematic flux at levels or footprint.
     """
 
+    # halo to deal with periodicity of FFT
+    if halo is None:
+        halo = max(domain)
+
     # Check cache for footprint mode
     if cache is not None and footprint:
-        cached = cache.get(z, profiles, domain, modes, meas_pt, halo, precision)
+        cache_extra = (
+            np.shape(srf_flx),
+            np.asarray(levels).tolist(),
+            bool(analytic),
+            float(srf_bg_conc),
+        )
+        cached = cache.get(
+            z, profiles, domain, modes, meas_pt, halo, precision, extra=cache_extra
+        )
         if cached is not None:
             return cached
 
@@ -103,10 +115,6 @@ def steady_state_transport_solver(
         levels = np.array([levels])
 
     nlvls = len(levels)
-
-    # halo to deal with periodicity of FFT
-    if halo is None:
-        halo = max(xmx, ymx)
 
     # pad width
     px = int(halo / dx)
@@ -304,7 +312,17 @@ def steady_state_transport_solver(
 
     # Store to cache for footprint mode
     if cache is not None and footprint:
-        cache.put(z, profiles, domain, modes, meas_pt, halo, precision, *result)
+        cache.put(
+            z,
+            profiles,
+            domain,
+            modes,
+            meas_pt,
+            halo,
+            precision,
+            *result,
+            extra=cache_extra,
+        )
 
     return result
 
